@@ -76,7 +76,7 @@ def _gen():
     yield 2
 
 
-N_KINDS = 33
+N_KINDS = 35
 
 
 def offending(kind, exc_kind=0):
@@ -150,6 +150,11 @@ def offending(kind, exc_kind=0):
         return "a\ud800b", False       # lone surrogate: not valid UTF-8 text
     if kind == 32:
         return {"k\ud800": 1}, False
+    if kind == 33:
+        return 1 << 20000, True          # an int whose str() raises ValueError (more than 4300 digits)
+    if kind == 34:
+        from vlib.graphs import Impostor
+        return Impostor(3), False        # __class__ lies about the type
     raise ValueError(kind)
 
 
@@ -185,7 +190,8 @@ def _check_one(s, f_locals, hostile, watch_expr=None):
     if hostile:
         # the hostile object itself has no fixed text; containers are rendered as 'Size: n' so they stay checkable
         for o in _iter_objs(f_locals):
-            if type(o).__name__ in ("BadStr", "BadRepr", "BadLen", "BadAttr", "BadDictProp", "BadKeyStr", "Holder"):
+            if type(o).__name__ in ("BadStr", "BadRepr", "BadLen", "BadAttr", "BadDictProp", "BadKeyStr", "Holder") or \
+                    (type(o) is int and o > 10 ** 100):
                 hid.add(id(o))
             if type(o) is dict and any(type(k).__name__ == "BadKeyStr" for k in o):
                 hid.add(id(o))
@@ -234,7 +240,7 @@ def total(kind: int, pos: int, ek: int, ntp: int, conv: int) -> str:
     SystemExit / GeneratorExit) at one of 5 positions, 1-3 snapshot tracepoints on the line (the last one with a watch):
     one snapshot per tracepoint is delivered and converts, every other variable is intact, the offending value has an
     entry with its real type name, each snapshot is complete and closed on its own.
-    PRE: 0 <= kind <= 32 and 0 <= pos <= 4 and 0 <= ek <= 5 and 1 <= ntp <= 3 and 0 <= conv <= 1
+    PRE: 0 <= kind <= 34 and 0 <= pos <= 4 and 0 <= ek <= 5 and 1 <= ntp <= 3 and 0 <= conv <= 1
     PRE: ek == 0 or kind in (16, 17, 18, 19, 20, 22)
     POST: _ == ""
     """
@@ -330,10 +336,10 @@ def _mut_key_names_raw():
 MUTANTS = {"dict_unguarded": _mut_dict_unguarded, "str_unguarded": _mut_str_unguarded, "key_names_raw": _mut_key_names_raw}
 
 CONDITIONS = [
-    dict(fn="total", cubes={"quick": ["kind == %d and ntp == 1 and conv == %d" % (k, 0 if k in (31, 32) else 1) for k in range(33)],
-                            "thorough": ["kind == %d and ntp == %d and conv == %d" % (k, n, 0 if k in (31, 32) else 1) for k in range(33) for n in (1, 2, 3)]},
+    dict(fn="total", cubes={"quick": ["kind == %d and ntp == 1 and conv == %d" % (k, 0 if k in (31, 32) else 1) for k in range(35)],
+                            "thorough": ["kind == %d and ntp == %d and conv == %d" % (k, n, 0 if k in (31, 32) else 1) for k in range(35) for n in (1, 2, 3)]},
          twins=["reach", "mutant:dict_unguarded@kind == 0 and ntp == 1 and conv == 1", "mutant:str_unguarded@kind == 17 and ntp == 1 and conv == 1",
                 "mutant:key_names_raw@kind == 8 and ntp == 1 and conv == 1"],
-         bounds="33 offending-value kinds x 5 positions (local, list element, dict value, object attribute, watch-only) x 6 exception classes for the hostile kinds; "
+         bounds="35 offending-value kinds x 5 positions (local, list element, dict value, object attribute, watch-only) x 6 exception classes for the hostile kinds; "
                 "1 tracepoint on the line (thorough: 1-3, the last with a watch); real protobuf conversion + serialisation of every snapshot"),
 ]
